@@ -97,9 +97,45 @@ def advance (q : Req) (m : St) (evs : List Ev) : St :=
     prea := upd m.prea (has (· == .prea))
     win := (has isAct :: m.win).take q.tFAW }
 
-/-- one controller cycle: every event must be allowed, and (after it) no more than four ACT in the tFAW window -/
+/-- two commands of ONE controller cycle are at distance 0 (the phase order inside the cycle is not part of this layer): `first`
+followed by `second` is a conflict when a rule with a non-zero requirement relates them -/
+def conflict1 (q : Req) : Ev → Ev → Bool
+  | .act b, .act b' => q.tRRD != 0 || q.tFAW != 0 || (b == b' && q.tRC != 0)
+  | .act b, .rd b' _ => b == b' && q.tRCD != 0
+  | .act b, .wr b' _ => b == b' && q.tRCD != 0
+  | .act b, .pre b' => b == b' && q.tRAS != 0
+  | .act _, .prea => q.tRAS != 0
+  | .rd _ _, .rd _ _ => q.tCCD != 0
+  | .rd _ _, .wr _ _ => q.tCCD != 0
+  | .wr _ _, .wr _ _ => q.tCCD != 0
+  | .wr _ _, .rd _ _ => q.tCCD != 0 || q.tWTR != 0
+  | .wr b _, .pre b' => b == b' && q.tWTP != 0
+  | .wr _ _, .prea => q.tWTP != 0
+  | .rd b ap, .act b' => ap && b == b' && q.tRP != 0
+  | .wr b ap, .act b' => ap && b == b' && (q.tWTP + q.tRP) != 0
+  | .pre b, .act b' => b == b' && q.tRP != 0
+  | .prea, .act _ => q.tRP != 0
+  | .prea, .ref => q.tRP != 0
+  | .prea, .zqc => q.tRP != 0
+  | .ref, .act _ => q.tRFC != 0
+  | .ref, .ref => q.tRFC != 0
+  | .ref, .zqc => q.tRFC != 0
+  | .zqc, .act _ => q.tZQCS != 0
+  | .zqc, .ref => q.tZQCS != 0
+  | .zqc, .zqc => q.tZQCS != 0
+  | _, _ => false
+
+def conflict (q : Req) (a b : Ev) : Bool := conflict1 q a b || conflict1 q b a
+
+/-- no two commands of the cycle are related by a rule with a non-zero requirement -/
+def exclusive (q : Req) : List Ev → Bool
+  | [] => true
+  | e :: rest => rest.all (fun e' => !conflict q e e') && exclusive q rest
+
+/-- one controller cycle: every event must be allowed with respect to the earlier cycles, the events of the cycle must not
+conflict with each other, and (after it) no more than four ACT in the tFAW window -/
 def step (q : Req) (m : St) (evs : List Ev) : Option St :=
-  if evs.all (allowed q m) then
+  if evs.all (allowed q m) && exclusive q evs then
     let m' := advance q m evs
     if (m'.win.filter id).length ≤ 4 then some m' else none
   else none
